@@ -380,7 +380,15 @@ impl Prop for C04 {
                         0 => format!("{} PRINT \"k{}", key, i),
                         1 => format!("{} C = 1.2.3", key),
                         2 => format!("{} PRINT % {}", key, i),
-                        3 => format!("18446744073709551616 PRINT \"k{}\"", i),
+                        // numerals just above 2^64-1 are not line numbers: with text or bare, they change nothing
+                        3 => {
+                            let n = format!("{}1844674407370955161{}", if rng.chance(1, 4) { "000" } else { "" }, 6 + rng.below(4));
+                            if rng.chance(1, 3) {
+                                n
+                            } else {
+                                format!("{} PRINT \"k{}\"", n, i)
+                            }
+                        }
                         _ => format!("{} é", key),
                     },
                 },
